@@ -11,6 +11,7 @@ for S in ${@:-seeded/*}; do
   B=$(basename $S); P=${B%%-*}
   [ -f $S/patch.diff ] || continue
   case $P in C01|C06|C08|C10|C12|C15|C19|C20) BASE=eb11a34;; *) BASE=0693e24;; esac
+  [ -f $S/base ] && BASE=$(cat $S/base)
   WT=/tmp/cs-$B
   git -C /repo worktree remove --force $WT >/dev/null 2>&1
   git -C /repo worktree add -q --detach $WT $BASE || { echo "$B: worktree failed"; continue; }
